@@ -9,6 +9,7 @@ program; `IvsCmr.lean`: the IV constants of the source are the tagged midstates 
 import SimplicityModel.Cmr
 import SimplicityModel.Prog.Merkle
 import SimplicityModel.IvsCmr
+import SimplicityModel.Prog.MerkleProps
 
 namespace Props.C09
 open Cmr
@@ -28,6 +29,22 @@ hash, or the initial state equal to a tagged IV. -/
 theorem equal_roots_equal_structure (P : Params) (x y : C P) (h : cmr P x = cmr P y) :
     Sim P x y ∨ Bad P :=
   cmr_inj P x y h
+
+/-- **The recomputed roots are the abstract roots.** For every well-indexed plan, the roots the
+driver computes with SHA-256 — the numbers compared bit for bit with `cmr()` of the implementation on
+every node — are `Cmr.cmr` of the node's *committed structure* `commitOf` (combinators, jets and
+words, fail entropy, hidden roots; witness data, types and the disconnected branch are not part of
+it), in the SHA-256 instance of the abstract parameters.  So hashing "the tagged combinator tree from
+scratch", invariance under hiding and the uniqueness statement above all speak about those numbers. -/
+theorem driver_roots_are_abstract_roots (jc : String → Nat) (p : Prog.Plan) (hw : Prog.WellIdx p)
+    (cs : Array Nat) (h : Prog.cmrs (fun n => some (jc n)) p = some cs) :
+    cs.size = p.size ∧ ∀ i, i < p.size → cs.getD i 0 =
+      Cmr.cmr (Prog.shaParams jc) (Prog.commitOf jc p (i + 1) i) :=
+  Prog.cmrs_eq jc p hw cs h
+
+/-- the committed structure of a node does not mention the branch of a disconnect -/
+example (jc : String → Nat) (a : Nat) (b : Option Nat) :
+    Prog.commitOf jc #[.iden, .disconnect a b] 2 1 = Prog.commitOf jc #[.iden, .disconnect a none] 2 1 := rfl
 
 /-- **Tie to the source:** every `Cmr::*_IV` constant of `src/merkle/cmr.rs` is the tagged-hash
 midstate of its documented tag string (so "hashing the tagged combinator tree from scratch", which
